@@ -109,7 +109,7 @@ def dumps_variant(r, v):
 
 def rnd_message_item(r):
     """An item that is a well-formed JSON-RPC text: written by the real encoder, or a JSON text in some layout."""
-    kind = r.randrange(7)
+    kind = r.randrange(8)
     rid = r.choice([1, 2, 7, 0, -5, 2147483647, r.randrange(1, 1000)])
     if kind == 0:
         return {"enc": "req", "id": rid, "m": B(rnd_string(r) or "m"), **({"p": B(json.dumps(rnd_value(r), ensure_ascii=False))} if r.random() < 0.85 else {})}
@@ -124,9 +124,11 @@ def rnd_message_item(r):
         msg = {"jsonrpc": "2.0", "id": rid, "result": rnd_value(r)}
     elif kind == 5:
         msg = [{"jsonrpc": "2.0", "method": "b%d" % i, "params": rnd_value(r, 2)} for i in range(r.randrange(1, 4))]
-    else:
+    elif kind == 6:
         msg = {"jsonrpc": "2.0", "error": {"code": r.choice([-32700, -32600, -1, 9]), "message": rnd_string(r)}}
         if r.random() < 0.6: msg["id"] = rid
+    else:
+        msg = {"jsonrpc": "2.0", "id": rid, "result": rnd_value(r), "error": None}          # success that also carries "error":null
     return {"t": B(dumps_variant(r, msg))}
 
 
@@ -188,6 +190,29 @@ def deep_nesting_scripts(r, quick):
                     size = len(v) + 60
                     runs = [[], [size // 2], [max(1, size - 8), size + 20]]
                     scripts.append({"f": fr, "items": items, "runs": runs})
+    return scripts
+
+
+def size_sweep_scripts(quick):
+    """Encoder -> decoder round trip with the length of the encoded JSON text taking every value from the shortest possible message
+    up to 600 bytes (plus around 1024 and 4096), messages back to back, 16 per stream.  Quick: every length for the header framing,
+    every 5th / 9th plus 240..270 for packet / raw (the raw reference scan costs TLC one recursion per byte)."""
+    base_res = len(json.dumps({"id": 1, "jsonrpc": "2.0", "result": ""}, separators=(",", ":"), sort_keys=True))
+    base_req = len(json.dumps({"id": 1, "jsonrpc": "2.0", "method": "m", "params": ""}, separators=(",", ":"), sort_keys=True))
+    scripts = []
+    for f in FRAMINGS:
+        lens = list(range(base_res, 601)) + [1023, 1024, 1025, 4095, 4096, 4097]
+        if quick and f != "header":
+            step = 9 if f == "raw" else 5
+            lens = [L for L in lens if L % step == 0 or 240 <= L <= 270 or L > 1000]
+        items = []
+        for n, L in enumerate(lens):
+            if L >= base_req and n % 2:
+                items.append({"enc": "req", "id": 1, "m": B("m"), "p": B('"' + "x" * (L - base_req) + '"')})
+            else:
+                items.append({"enc": "res", "id": 1, "p": B('"' + "y" * (L - base_res) + '"')})
+        for a in range(0, len(items), 16):
+            scripts.append({"f": f, "items": items[a:a + 16], "runs": [[], [100, 257, 1000, 3000]]})
     return scripts
 
 
@@ -286,7 +311,9 @@ def gen_to_rpc_scripts(behs, r):
             if op["o"] == "req":
                 steps.append({"o": "req", "cb": op["cb"], "body": op["body"]} if op["cb"] else {"o": "req", "cb": False})
             elif op["o"] == "rsp":
-                if op["k"] > 0: steps.append({"o": "rsp", "k": op["k"], "kind": "err" if (i + len(steps)) % 5 == 0 else "res", "val": -7 - len(steps)} if (i + len(steps)) % 5 == 0 else {"o": "rsp", "k": op["k"]})
+                if op["k"] > 0:
+                    kind = ["err", "res_errnull", "err_resnull", "res", "res"][(i + len(steps)) % 5]
+                    steps.append({"o": "rsp", "k": op["k"]} if kind == "res" else {"o": "rsp", "k": op["k"], "kind": kind, "val": -7 - len(steps)})
                 else: steps.append({"o": "rsp", "raw": op["raw"], "kind": ["err", "res", "err", "req"][(i + len(steps)) % 4]})
             elif op["o"] == "adv":
                 steps.append({"o": "adv", "u": 1})
@@ -324,7 +351,8 @@ def seeded_rpc_scripts(r, n, nsteps):
                 steps.append({"o": "req", "cb": False})
             elif x < 0.5 and nreq:
                 k = max(1, nreq + 1 - r.choice([0, 1, 1, 1, 2, 2, 3, 5]))          # mostly a recent request, sometimes one not issued yet
-                steps.append({"o": "rsp", "k": k, "kind": "err", "val": r.choice([-1, -7, 5, -32601])} if r.random() < 0.3 else {"o": "rsp", "k": k})
+                kind = r.choice(["res", "res", "res", "err", "err", "res_errnull", "err_resnull"])      # incl. responses carrying both members
+                steps.append({"o": "rsp", "k": k} if kind == "res" else {"o": "rsp", "k": k, "kind": kind, "val": r.choice([-1, -7, 5, -32601])})
             elif x < 0.58:
                 steps.append({"o": "rsp", "raw": r.choice(STRANGERS), "kind": r.choice(STRANGER_KINDS)})
             elif x < 0.68:
@@ -392,6 +420,8 @@ def run(ctx):
         nv, nh = (500, 700) if q else (6000, 8000)
         fscripts = seeded_framing_scripts(random.Random(ctx.seed * 7919 + 1), nv, nh)
         dscripts = deep_nesting_scripts(random.Random(ctx.seed * 31 + 5), q)
+        sscripts = size_sweep_scripts(q)
+        run_frame(ctx, exe, sscripts, "sizeframe", "size sweep: encoded text lengths up to 600, 1024, 4096 (%d streams)" % len(sscripts), False)
         run_frame(ctx, exe, dscripts, "deepframe", "deeply nested valid messages (depth 1..500; %d streams)" % len(dscripts), False)
         ok, tr = run_frame(ctx, exe, fscripts, "rndframe", "seeded corpora: %d valid streams, %d hostile streams, segmented" % (nv, nh), False)
         ctx.sample({"kind": "recorded framing trace (first events)", "events": [json.loads(x)["e"] for x in vlib.read_lines(tr, 1, 12)]})
